@@ -179,6 +179,10 @@ func (b *c18Base) run(j *c18Job, rep *kernel.Report) (*Fail, error) {
 		}
 		return &Fail{FP: "C18/startup-failed/" + cls, What: ctx + ": " + err.Error()}, nil
 	}
+	// released pool buffers are poisoned and kept out of circulation; a write into one is reported after the queries
+	if err := w.Call("poolquarantine", nil, nil); err != nil {
+		return nil, err
+	}
 	var qs []Q
 	for _, t := range c18Queries {
 		qs = append(qs, Q{Index: "c18", Text: t, Start: T0 - 10, End: T0 + 1000, Size: 100})
@@ -194,6 +198,17 @@ func (b *c18Base) run(j *c18Job, rep *kernel.Report) (*Fail, error) {
 		return nil, err
 	}
 	rep.Eval(int64(len(qs)))
+	var pc struct {
+		Violations []string `json:"violations"`
+		Released   int      `json:"released"`
+	}
+	if err := w.Call("poolcheck", nil, &pc); err != nil {
+		return nil, err
+	}
+	rep.Add("pool_buffers_released_and_checked", int64(pc.Released))
+	if len(pc.Violations) > 0 {
+		return &Fail{FP: "C18/released-buffer-still-used/" + cls, What: fmt.Sprintf("%s: after the queries %s (a buffer given back to the shared pool belongs to whichever reader takes it next: the damaged segment's reader writes into other readers' data)", ctx, strings.Join(pc.Violations, " | "))}, nil
+	}
 	altered := false
 	for qi, r := range rs {
 		q := c18Queries[qi]
